@@ -218,7 +218,9 @@ class PredEval:
                 del alias[k]
         self.inlined_aliases = {k: norm(v) for k, v in alias.items()}
         if not alias:
-            return list(fn.body)
+            body0 = [self._inline_predicates(_clone(st, {}), 0) for st in fn.body]
+            self._keep.append(body0)
+            return body0
 
         def drop(st: ast.stmt) -> bool:
             return isinstance(st, (ast.Assign, ast.AnnAssign)) and (st.targets if isinstance(st, ast.Assign) else [st.target])[0:1] and isinstance((st.targets if isinstance(st, ast.Assign) else [st.target])[0], ast.Name) and (st.targets if isinstance(st, ast.Assign) else [st.target])[0].id in alias and len(st.targets if isinstance(st, ast.Assign) else [st.target]) == 1
@@ -239,8 +241,96 @@ class PredEval:
             return out
 
         body = rewrite(list(fn.body))
+        body = [self._inline_predicates(st, 0) for st in body]
         self._keep.append(body)
         return body
+
+    # -- pure predicate helpers: `if self._is_x(a, b):` where _is_x is a side-effect-free decision list of the same class/module --
+
+    def _callee_of(self, c: ast.Call) -> "FuncInfo | None":
+        repo = getattr(self.ctx, "repo", None)
+        if repo is None:
+            return None
+        if isinstance(c.func, ast.Attribute) and isinstance(c.func.value, ast.Name) and c.func.value.id == "self" and self.f.cls is not None:
+            for k in self.f.cls.mro:
+                if c.func.attr in k.methods:
+                    return k.methods[c.func.attr]
+            return None
+        if isinstance(c.func, ast.Name):
+            g = self.f.nested.get(c.func.id) if hasattr(self.f, "nested") else None
+            if g is not None:
+                return g
+            q = f"{self.f.module.name}.{c.func.id}"
+            return repo.funcs.get(q)
+        return None
+
+    @staticmethod
+    def _pure_expr(e: ast.AST) -> bool:
+        for x in ast.walk(e):
+            if isinstance(x, (ast.Await, ast.Yield, ast.YieldFrom, ast.NamedExpr, ast.Lambda)):
+                return False
+            if isinstance(x, ast.Call) and not (isinstance(x.func, ast.Name) and x.func.id in ("isinstance", "bool", "len", "int", "str", "hasattr", "getattr")):
+                return False
+        return True
+
+    def _as_expr(self, stmts: list[ast.stmt], subst: dict[str, ast.expr]) -> "ast.expr | None":
+        """A side-effect-free decision list (`x = <pure>`, `if c: return A`, ..., `return B`) as one expression, or None."""
+        stmts = [st for st in stmts if not (isinstance(st, ast.Expr) and isinstance(st.value, ast.Constant))]
+        if not stmts:
+            return ast.Constant(value=None)
+        st, rest = stmts[0], stmts[1:]
+        if isinstance(st, ast.Return):
+            v = st.value if st.value is not None else ast.Constant(value=None)
+            return _clone(v, subst) if self._pure_expr(v) else None
+        if isinstance(st, (ast.Assign, ast.AnnAssign)) and getattr(st, "value", None) is not None:
+            tg = st.targets if isinstance(st, ast.Assign) else [st.target]
+            if len(tg) == 1 and isinstance(tg[0], ast.Name) and self._pure_expr(st.value):
+                later_stores = any(isinstance(x, ast.Name) and x.id == tg[0].id and isinstance(x.ctx, ast.Store) for r in rest for x in ast.walk(r))
+                if later_stores:
+                    return None
+                sub2 = dict(subst)
+                sub2[tg[0].id] = _clone(st.value, subst)
+                return self._as_expr(rest, sub2)
+            return None
+        if isinstance(st, ast.If) and self._pure_expr(st.test):
+            def leaves(b: list[ast.stmt]) -> bool:
+                return bool(b) and (isinstance(b[-1], ast.Return) or (isinstance(b[-1], ast.If) and b[-1].orelse and leaves(b[-1].body) and leaves(b[-1].orelse)))
+            a = self._as_expr(st.body + ([] if leaves(st.body) else rest), subst)
+            b = self._as_expr((st.orelse + ([] if leaves(st.orelse) else rest)) if st.orelse else rest, subst)
+            if a is None or b is None:
+                return None
+            return ast.IfExp(test=_clone(st.test, subst), body=a, orelse=b)
+        if isinstance(st, (ast.Assert, ast.Pass)):
+            return self._as_expr(rest, subst)
+        return None
+
+    def _inline_predicates(self, node: Any, depth: int) -> Any:
+        if isinstance(node, list):
+            return [self._inline_predicates(x, depth) for x in node]
+        if not isinstance(node, ast.AST):
+            return node
+        for fld in node._fields:
+            v = getattr(node, fld, None)
+            if isinstance(v, (list, ast.AST)):
+                setattr(node, fld, self._inline_predicates(v, depth))
+        if isinstance(node, ast.Call) and depth < 2 and not any(isinstance(a, ast.Starred) for a in node.args) and not any(k.arg is None for k in node.keywords):
+            g = self._callee_of(node)
+            if g is not None and not g.is_async and g.node is not self.f.node and not g.decorators:
+                params = [a.arg for a in g.node.args.posonlyargs + g.node.args.args]
+                if params and params[0] in ("self", "cls") and isinstance(node.func, ast.Attribute):
+                    params = params[1:]
+                if len(node.args) <= len(params) and not g.node.args.vararg and not g.node.args.kwarg:
+                    sub: dict[str, ast.expr] = dict(zip(params, node.args))
+                    sub.update({k.arg: k.value for k in node.keywords if k.arg})
+                    dflt = g.node.args.defaults
+                    for pn, d in zip(params[len(params) - len(dflt):] if dflt else [], dflt):
+                        sub.setdefault(pn, d)
+                    if all(pn in sub for pn in params) and all(self._pure_expr(a) for a in sub.values()):
+                        e = self._as_expr(list(g.node.body), sub)
+                        if e is not None:
+                            self.notes.add(f"inlined pure predicate {g.short}")
+                            return self._inline_predicates(e, depth + 1)
+        return node
 
     def _collect(self) -> None:
         locals_: set[str] = set()
